@@ -134,7 +134,7 @@ func (l *lgen) lineString() geom.LineString {
 			pts = append(pts[:k+1], pts[k:]...)
 		}
 		ls := geom.NewLineString(seqOf(pts))
-		if ls.Validate() == nil {
+		if genValid(ls) {
 			return ls
 		}
 	}
@@ -211,7 +211,7 @@ func (l *lgen) rawPolygon() geom.Polygon {
 func (l *lgen) polygon() geom.Polygon {
 	for {
 		p := l.rawPolygon()
-		if p.Validate() == nil {
+		if genValid(p) {
 			return p
 		}
 	}
@@ -258,7 +258,7 @@ func (l *lgen) multiPolygon() geom.MultiPolygon {
 			ps = append(ps[:i], append([]geom.Polygon{{}}, ps[i:]...)...)
 		}
 		mp := geom.NewMultiPolygon(ps)
-		if mp.Validate() == nil {
+		if genValid(mp) {
 			return mp
 		}
 	}
